@@ -12,7 +12,7 @@ from ..tables import enum_const_table
 from . import conn
 from .conn import leaves, ret_kind, self_field
 from .fields import is_derive
-from .util import const_of, is_call, last_seg, look, norm, truth, option_is_some, is_new_fn, has_callers, known_callers, reaches_via_new, block_reaches
+from .util import writer_roots, const_of, is_call, last_seg, look, norm, truth, option_is_some, is_new_fn, has_callers, known_callers, reaches_via_new, block_reaches
 
 EXPLANATION = (
     "Static proof obligations for every panic-capable construct of the crate, enumerated from MIR "
@@ -269,7 +269,7 @@ def typestate(ctx):
     from .fields import field_writers
     for fld in ("state", "pending_request"):
         for w in field_writers(facts, conn.HC, fld):
-            ok = w[0].startswith(conn.P)
+            ok = all(r.startswith(conn.P) for r in writer_roots(facts, w[0]))
             all_ok = all_ok and ok
             if not ok:
                 ctx.fail("R03.4", "writers|%s|%s" % (fld, w[0]), "HttpConnection.%s is written outside the impl: %s" % (fld, w[0]), w[2])
